@@ -46,6 +46,7 @@ type Config struct {
 	TimeBudget  time.Duration
 	SecondCheck []string // extra solvers re-discharging assertion queries (thorough)
 	Trace       bool
+	Solver      string // primary solver: z3 (default), z3-new, cvc5
 	Params      map[string]int // tier bounds visible to the harness through verifParam
 	Summaries   map[string][]int // pure callees explored separately and merged (value: result indices replaced by zero)
 }
@@ -501,7 +502,11 @@ func (e *Explorer) Run() {
 		wg.Add(1)
 		go func() {
 			defer wg.Done()
-			s, err := NewSolver("z3", e.Cfg.SolverMs)
+			kind := e.Cfg.Solver
+			if kind == "" {
+				kind = "z3"
+			}
+			s, err := NewSolver(kind, e.Cfg.SolverMs)
 			if err != nil {
 				panic(err)
 			}
